@@ -11,6 +11,9 @@ for p in sorted(glob.glob(os.path.join(root, "checks", "C*.json"))):
     cid = c["id"]
     if cid in hold:
         continue
+    if c.get("technique", "wip") == "wip" or not c.get("required_theorems"):
+        hold[cid] = "work in progress (no property theorems registered yet)"
+        continue
     checks.append({
         "property_id": cid,
         "quick_cmd": "./check %s --tier quick" % cid,
